@@ -1,5 +1,5 @@
 #[cfg(kani)]
-mod verif_q {
+pub(crate) mod verif_q {
     //! Q — `InputQueue` inductive single-step harnesses (C01, C03, C11, C18).
     //! Pre-state: every field symbolic, constrained only by the representation invariant `inv`;
     //! one real operation; post: its contract and `inv` again. One step from *any* state that
@@ -147,6 +147,31 @@ mod verif_q {
         }
         true
     }
+
+    // ---- helpers for the harnesses of other modules (private fields are visible only here)
+    pub(crate) fn set_fi<T: Config<Input = u8>>(q: &mut InputQueue<T>, fi: Frame) {
+        q.first_incorrect_frame = fi;
+    }
+    pub(crate) fn la<T: Config<Input = u8>>(q: &InputQueue<T>) -> Frame {
+        q.last_added_frame
+    }
+    pub(crate) fn lr<T: Config<Input = u8>>(q: &InputQueue<T>) -> Frame {
+        q.last_requested_frame
+    }
+    pub(crate) fn len<T: Config<Input = u8>>(q: &InputQueue<T>) -> usize {
+        q.length
+    }
+    pub(crate) fn tail_frame<T: Config<Input = u8>>(q: &InputQueue<T>) -> Frame {
+        q.inputs[q.tail].frame
+    }
+    pub(crate) fn predicting<T: Config<Input = u8>>(q: &InputQueue<T>) -> bool {
+        q.prediction.frame != NULL_FRAME
+    }
+    pub(crate) fn slot<T: Config<Input = u8>>(q: &InputQueue<T>, f: Frame) -> (Frame, u8) {
+        let s = q.inputs[f as usize % N];
+        (s.frame, s.input)
+    }
+    pub(crate) const RING: usize = N;
 
     fn value_of<T: Config<Input = u8>>(q: &InputQueue<T>, f: Frame) -> u8 {
         q.inputs[f as usize % N].input
